@@ -329,6 +329,7 @@ SHAPES = [
     Shape("d_items", "d", "list(d.items())", ["u", T("dict", d="dict")], mut=True, group="dict"),
     Shape("d_copy", "d", "d.copy()", ["u", T("dict", d="dict")], mut=True, group="dict"),
     Shape("d_clear", "d", "d.clear()", ["u", T("dict", d="dict")], mut=True, group="dict"),
+    Shape("d_update", "d o", "d.update(o)", ["u", T("dict", d="dict"), T("dd", d="dict", o="dict")], mut=True, group="dict"),
     # ---- list methods
     Shape("l_append", "x v", "x.append(v)", ["u", T("list", x="list")], mut=True, stmt=True, group="list"),
     Shape("l_append_r", "x v", "x.append(v)", ["u", T("list", x="list")], mut=True, group="list"),
